@@ -97,12 +97,16 @@ func c12Verify(pk *gabikeys.PublicKey, p *ProofD) (accepted, panicked bool) {
 			if !q4.Verify(pk, vfContext, vfNonce, false) {
 				return
 			}
+			before, err := json.Marshal(q4)
+			if err != nil {
+				return
+			}
 			bts, err := json.Marshal(p)
 			if err != nil || json.Unmarshal(bts, q4) != nil {
 				return
 			}
-			if again, err := json.Marshal(q4); err != nil || string(again) != string(bts) {
-				return
+			if after, err := json.Marshal(q4); err != nil || string(after) == string(before) {
+				return // encoding/json merges maps: nothing of the alteration arrived in the value
 			}
 			ok4 = q4.Verify(pk, vfContext, vfNonce, false)
 			ok4 = (ProofList{q4}).Verify([]*gabikeys.PublicKey{pk}, vfContext, vfNonce, false, nil) || ok4
